@@ -98,7 +98,7 @@ func ParentMain(args []string) int {
 
 func (r *runner) needRace() bool {
 	for _, ph := range r.p.Phases {
-		if ph.Race {
+		if ph.Race && ph.N(r.tier) > 0 {
 			return true
 		}
 	}
